@@ -13,5 +13,5 @@ CONSTANTS
   LadderFrames = {"deflate"}
   Deliveries = {0, 1, 7, 4096, 100001, 100013}
 SPECIFICATION Spec
-INVARIANTS Emit Tiles Ordered HalfLaw LadderLaw EdgeLaw
+INVARIANTS Emit Tiles Ordered HalfLaw LadderLaw EdgeLaw FbLaw
 CHECK_DEADLOCK FALSE
